@@ -24,7 +24,8 @@ def run (kv : KV) : String :=
     if kind == "drop-tcp" || kind == "drop-unix" || kind == "drop-queued" || kind == "drop-unix-dead" then
       let r := if (get kv "refused_ms").startsWith "-" then none else toNat? (get kv "refused_ms")
       let pr := if get kv "path_removed" == "na" then none else some (get kv "path_removed" == "1")
-      ("na", b01 (dropHolds r (get kv "answered" == "1") pr && (!has kv "drop_returned" || get kv "drop_returned" == "1")), kind)
+      ("na", b01 (dropHolds r (get kv "answered" == "1") pr && (!has kv "drop_returned" || get kv "drop_returned" == "1")
+          && (!has kv "first_refused" || get kv "first_refused" == "1")), kind)
     else if kind == "burst" then (b01 (get kv "answered_all" == "1"), "na", "burst:" ++ get kv "n" ++ (if toNatD (get kv "held") > 0 then ",srv:held" else ""))
     else if kind == "reclaim" then
       ("na", b01 (reclaimHolds (toNatD (get kv "n")) (toNatD (get kv "ok")) (toNatD (get kv "base")) (toNatD (get kv "after"))),
